@@ -89,3 +89,35 @@ Theorem C18_run_loop_result :
     is_finished sf = true /\ RunInv n sf /\
     flat_map fill_of (rev (m_ev sf)) = (0, 0%R) :: fills_upto sf (Z.to_nat (m_steps sf)) /\ jumps_ok sf.
 Proof. exact noisy_run_loop. Qed.
+
+(* Two sites (one pair evolution per progress() call): the same invariant for every oracle stream and any number of
+   calls, and the same statement about the loop. *)
+From EV Require Import Proofs.NoisyN2.
+Theorem C18_two_sites_whole_run :
+  forall (t1 : R) (rest : list R) etol maxsw onorm ounif oenergy osame (m : nat),
+  (forall k, 0 <= k < 1 + Z.of_nat (length rest) ->
+             (tmL (0%R :: t1 :: rest) k < tmL (0%R :: t1 :: rest) (k + 1))%R) ->
+  match mk_initial R_arith Noisy 2 (1 + Z.of_nat (length rest)) (0%R :: t1 :: rest) etol maxsw
+                   onorm ounif oenergy osame with
+  | Ok s0 =>
+      match iter_progress R_arith m s0 with
+      | Ok s' => RunInv2 s'
+      | Err e => allowed_err e
+      | OutOfFuel => False
+      end
+  | Err e => e = E_ORACLE
+  | OutOfFuel => False
+  end.
+Proof. exact noisy_whole_run2. Qed.
+
+Theorem C18_two_sites_run_loop_result :
+  forall (t1 : R) (rest : list R) etol maxsw onorm ounif oenergy osame (fuel : nat),
+  (forall k, 0 <= k < 1 + Z.of_nat (length rest) ->
+             (tmL (0%R :: t1 :: rest) k < tmL (0%R :: t1 :: rest) (k + 1))%R) ->
+  forall s0 sf,
+    mk_initial R_arith Noisy 2 (1 + Z.of_nat (length rest)) (0%R :: t1 :: rest) etol maxsw
+               onorm ounif oenergy osame = Ok s0 ->
+    run R_arith fuel s0 = Ok sf ->
+    is_finished sf = true /\ RunInv2 sf /\
+    flat_map fill_of (rev (m_ev sf)) = (0, 0%R) :: fills_upto sf (Z.to_nat (m_steps sf)) /\ jumps_ok sf.
+Proof. exact noisy_run_loop2. Qed.
